@@ -1094,6 +1094,17 @@ func (fr *Frame) evalCall(x *ECall, env *evalEnv) (Value, error) {
 			return nil, fmt.Errorf("fresh() needs an old state")
 		}
 		return boolV(and(refLe(env.old.alloc, ref), refLt(ref, env.st.alloc))), nil
+	case "calls":
+		// calls(f): number of times the function value f has been called so far
+		v, err := arg(0)
+		if err != nil {
+			return nil, err
+		}
+		ref, err := refOf(v)
+		if err != nil {
+			return nil, err
+		}
+		return intV(env.readAt("G.calls", sArr(sRef, sBV(64)), ref)), nil
 	case "has":
 		// has(m, k): key k is present in map m
 		mv, err := arg(0)
